@@ -100,6 +100,55 @@ theorem C09_blocklist_wins (g : Graph) (adm : Edge → Bool) (bl : Nat → Bool)
   have := ((C09_dfs_eq_reach g adm bl fuel roots ys h x).mp hx).2
   rw [hb] at this; cases this
 
+/-- **Monotone in the allow-list**: adding patterns (more roots) never removes an item -/
+theorem C09_monotone_in_roots (g : Graph) (adm : Edge → Bool) (bl : Nat → Bool) (fuel fuel' : Nat)
+    (roots roots' ys ys' : List Nat) (hsub : ∀ r ∈ roots, r ∈ roots')
+    (h : allowlistedTraversal (g.succ adm) bl fuel roots = some ys)
+    (h' : allowlistedTraversal (g.succ adm) bl fuel' roots' = some ys') :
+    ∀ x ∈ ys, x ∈ ys' := by
+  intro x hx
+  obtain ⟨⟨r, hr, hreach⟩, hb⟩ := (C09_dfs_eq_reach g adm bl fuel roots ys h x).mp hx
+  exact (C09_dfs_eq_reach g adm bl fuel' roots' ys' h' x).mpr ⟨⟨r, hsub r hr, hreach⟩, hb⟩
+
+/-- **The yielded set depends on the set of roots only**: order and repetition of the roots (the
+order in which allow-listed items are met) do not change which items are yielded -/
+theorem C09_roots_as_set (g : Graph) (adm : Edge → Bool) (bl : Nat → Bool) (fuel fuel' : Nat)
+    (roots roots' ys ys' : List Nat) (hsame : ∀ r, r ∈ roots ↔ r ∈ roots')
+    (h : allowlistedTraversal (g.succ adm) bl fuel roots = some ys)
+    (h' : allowlistedTraversal (g.succ adm) bl fuel' roots' = some ys') :
+    ∀ x, x ∈ ys ↔ x ∈ ys' :=
+  fun x => ⟨C09_monotone_in_roots g adm bl fuel fuel' roots roots' ys ys' (fun r hr => (hsame r).1 hr) h h' x,
+    C09_monotone_in_roots g adm bl fuel' fuel roots' roots ys' ys (fun r hr => (hsame r).2 hr) h' h x⟩
+
+/-- **Antitone in the blocklist, and nothing else is lost**: blocklisting more items removes exactly
+the newly blocklisted ones — every other item stays (the traversal goes through blocklisted items) -/
+theorem C09_blocklist_removes_only_blocklisted (g : Graph) (adm : Edge → Bool) (bl bl' : Nat → Bool)
+    (fuel fuel' : Nat) (roots ys ys' : List Nat)
+    (h : allowlistedTraversal (g.succ adm) bl fuel roots = some ys)
+    (h' : allowlistedTraversal (g.succ adm) bl' fuel' roots = some ys') (x : Nat) (hx : x ∈ ys)
+    (hb' : bl' x = false) : x ∈ ys' := by
+  obtain ⟨hr, _⟩ := (C09_dfs_eq_reach g adm bl fuel roots ys h x).mp hx
+  exact (C09_dfs_eq_reach g adm bl' fuel' roots ys' h' x).mpr ⟨hr, hb'⟩
+
+theorem reach_mono_adm (g : Graph) (adm adm' : Edge → Bool) (hadm : ∀ e, adm e = true → adm' e = true)
+    {r x : Nat} (hreach : Reach (g.succ adm) r x) : Reach (g.succ adm') r x := by
+  induction hreach with
+  | refl => exact Reach.refl _
+  | step _ hs ih =>
+    obtain ⟨e, he, ha, rfl⟩ := Graph.succ_mem.mp hs
+    exact Reach.step ih (Graph.succ_mem.mpr ⟨e, he, hadm e ha, rfl⟩)
+
+/-- **Monotone in the admitted edges**: following more kinds of edges (e.g. turning recursion or
+function/method generation on) never removes an item -/
+theorem C09_monotone_in_edges (g : Graph) (adm adm' : Edge → Bool) (bl : Nat → Bool) (fuel fuel' : Nat)
+    (roots ys ys' : List Nat) (hadm : ∀ e, adm e = true → adm' e = true)
+    (h : allowlistedTraversal (g.succ adm) bl fuel roots = some ys)
+    (h' : allowlistedTraversal (g.succ adm') bl fuel' roots = some ys') :
+    ∀ x ∈ ys, x ∈ ys' := by
+  intro x hx
+  obtain ⟨⟨r, hr, hreach⟩, hb⟩ := (C09_dfs_eq_reach g adm bl fuel roots ys h x).mp hx
+  exact (C09_dfs_eq_reach g adm' bl fuel' roots ys' h' x).mpr ⟨⟨r, hr, reach_mono_adm g adm adm' hadm hreach⟩, hb⟩
+
 /-! ### the whole of `compute_allowlisted_and_codegen_items` -/
 
 theorem C09_compute_isSome (g : Graph) (hc : g.Closed) (o : Options) (items : List ItemInfo)
